@@ -116,6 +116,8 @@ func C13(c *Ctx) {
 		"A <- B \"a\\qc\"\nB <- 'b'\n", "A <- B \"unterminated", "A <- B\nB \"bad\\q name\" <- 'b'\n", "A <- B 'x\xffy'\nB <- 'b'\n", "A <- B \"\\u12\" C\nB <- 'b'\nC <- 'c'\n", "A <- b:B [\\q]\nB <- 'b'\n",
 		// runes whose case folding crosses the Basic Latin boundary
 		"{\npackage p\n}\nA <- [K\u017f\u0130\u0131\u212a]i [\u212a-\u212b]i '\u017f'i \"\u212a\"i [^\u0130]i [\u00b5\u03bc\u1e9e\u00df]i\n",
+		// runes whose two cases have different encoded lengths, literally and as escapes
+		"{\npackage p\n}\nA <- \"\u023a\"i '\u023e'i \"\\u023a\\U0000023E\"i [\u023a\u2c65]i \"\u023a\u023e\u023a\u023e\u023a\"i \"x\u0130\u212a\u023a\"i \"\u2c65\u2c66\"i\n",
 		// nested repetition / option operators, literally and through an inlined leaf rule
 		"{\npackage p\n}\nA <- ('a'?)* 'b'\n", "{\npackage p\n}\nA <- Sep+ 'x' (Sep*)* (Sep?)? ('y'*)+\nSep <- ' '?\n", "{\npackage p\n}\nA <- (('a'+)?)* (B*)?\nB <- 'b'*\n",
 		// a recovery operator around a bare matcher / throw / predicate, its recovery expression starting with a rule reference
@@ -225,6 +227,10 @@ func C13(c *Ctx) {
 		useO := j.ofile || hasFlag(flags, "-debug")
 		if useO {
 			args = append(args, "-o", ofile)
+			if n%3 == 0 {
+				// the output path already holds an older, much longer generated file (regenerating in place)
+				os.WriteFile(ofile, []byte("package old\n\n"+strings.Repeat("// old generated line\nvar _ = 0\n", 20000)), 0o644)
+			}
 		}
 		var stdin []byte
 		if j.stdin {
@@ -267,6 +273,10 @@ func C13(c *Ctx) {
 		j := jobs[i]
 		res, out, outExists := run(j, j.flags)
 		c.Eval(1)
+		if outExists && res.Exit == 0 && bytes.Contains(out, []byte("old generated line")) {
+			c.Report(&Violation{Class: "C13/stale-output", Summary: fmt.Sprintf("pigeon -o wrote over an existing longer file and left part of the old content behind (exit 0, %d bytes in the file); flags %v; text %q", len(out), j.flags, truncBytes(j.text, 300)),
+				Grammar: string(j.text), Flags: j.flags, Input: j.text})
+		}
 		c.CovSet("exit_status", fmt.Sprint(res.Exit))
 		c.CovSet("input_kind", j.kind)
 		report := func(class, msg string) {
